@@ -93,6 +93,61 @@ func runC13(cfg *config, res *monitor.Result) {
 				x.viol("Close", "error", "Close returned an error: "+err.Error(), nil, nil)
 			}
 		}
+		// the SAME Def object changed in place between two calls of the Decode function (a tag swapped for another
+		// one, a nested definition extended): the second call must answer for the definition as it is now
+		if i%4 == 1 && len(def) > 0 {
+			tags := sortedTags(def)
+			victim := tags[r.Intn(len(tags))]
+			repl := 0
+			for _, f := range lvl.fields {
+				if !declared(def, f.Num) && !lvl.mixed[f.Num] {
+					repl = f.Num
+					break
+				}
+			}
+			if repl == 0 {
+				for _, c := range []int{6, 8, 12, 14, 17} {
+					if !declared(def, c) && len(lvl.byNum[c]) == 0 {
+						repl = c
+						break
+					}
+				}
+			}
+			changed := false
+			if sub := nestedDef(def, victim); sub != nil && r.Bool() {
+				for _, c := range []int{1, 2, 3, 4, 5, 15, 16} {
+					if _, ok := sub[c]; !ok {
+						sub.Tags(c) // same top-level length, nested definition grows
+						changed = true
+						break
+					}
+				}
+			}
+			if !changed && repl != 0 {
+				delete(def, victim)
+				delete(def, -victim)
+				def.Tags(repl)
+				changed = true
+			}
+			if changed {
+				in := append([]byte(nil), input...)
+				cfg.progress.Set("c13-def-mutated", defString(def), monitor.Hex(input))
+				x.input, x.def, x.mode, x.entry = input, def, "safe", "func-after-def-mutation"
+				var dr *lazyproto.DecodeResult
+				var closeFn func() error
+				var err error
+				if pi := monitor.Try(func() { dr, closeFn, err = decodeVia(entryPoints[0], in, def) }); pi != nil {
+					x.viol("Decode", "panic", "Decode panicked on a well-formed message: "+pi.Value, nil, map[string]any{"frame": pi.Frame})
+				} else if err != nil {
+					x.viol("Decode", "well-formed-rejected", "Decode failed on a well-formed message: "+err.Error(), nil, nil)
+				} else {
+					x.evals++
+					x.result(dr, lvl, def, nil, len(input) == 0, 3)
+					_ = closeFn()
+					x.classes["def-mutated-in-place/func"]++
+				}
+			}
+		}
 		if i < 2 && cfg.shard == 0 {
 			res.Sample(map[string]any{"family": "well-formed message x definition", "input": monitor.Hex(clip(input)), "input_len": len(input), "def": defString(def), "entry_points": "Decode func, Decoder safe, Decoder fast", "accessors": len(accessors)})
 		}
